@@ -5,7 +5,7 @@ namespace Fastrace
 
 /-- operations that neither push nor pop a thread-local guard -/
 def isPlain : Op → Bool
-  | .scope _ | .localEnter _ | .collectorStart | .close | .collect _ | .exit => false
+  | .scope _ | .localEnter _ | .collectorStart | .close | .collect _ | .exit | .adPoll _ _ | .adEnd _ _ => false
   | _ => true
 
 theorem Stack.addEvent_ext (st : Stack) (c : Ctr) (n : String) (p : Option Props) :
@@ -102,6 +102,21 @@ theorem exec_plain_pres (s : Sys) (t : Nat) (op : Op) (hp : isPlain op = true) (
   | close => simp [isPlain] at hp
   | collect x => simp [isPlain] at hp
   | exit => simp [isPlain] at hp
+  | adPoll a c => simp [isPlain] at hp
+  | adEnd a r => simp [isPlain] at hp
+  | adNew a kind arg =>
+    simp only [exec]
+    cases kind with
+    | enterOnPoll => exact Pres.refl _
+    | inSpan | stream | sink => all_goals (dsimp only; split <;> exact Pres.refl _)
+  | adDrop a =>
+    simp only [exec]
+    split
+    · exact Pres.refl _
+    · split
+      · apply Pres.of_loc
+        rw [Sys.dropSpanVal_loc]; rfl
+      · exact Pres.refl _
   | setReporter c => exact Pres.refl _
   | spawn =>
     simp only [exec]
